@@ -521,6 +521,8 @@ def strip_cols(x):
 
 
 def run_c12(ctx):
+    import checks_driver
+    checks_driver.regenerate_facts(ctx)     # T1: option / alias / default tables rewritten from the current source
     check_obligations(ctx, "C12")
     n = 40 if ctx.tier == "quick" else 600
     rng = random.Random(ctx.seed * 131 + 7)
@@ -545,6 +547,7 @@ def run_c12(ctx):
                     k = rng.choice([0, 0, 2])
                     items.append((cls, "\r\n" * k + r[0].replace("\n", "\r\n"), r[1] + k))
     items += [("dup_match_key", t, line) for t, line in faults.dup_key_programs()]
+    items += [("bad_option_value", t, line) for t, line in faults.bad_option_programs()]
     items.append((None, faults.KEYWORD_PREFIX_PROGRAM, None))
     items.append((None, " ".join(faults.KEYWORD_PREFIX_PROGRAM.split()) + "\n", None))
     # documented option values, one at a time
